@@ -55,13 +55,65 @@ PROPS = {
                         'the recorded hasher input and cmp results on the generated cases'],
     },
     'C05': {
-        'level_text': 'PROVISIONAL (proofs in progress): Coq model of filter_kmers (coq/Algo/Filter.v) with pass planning, buckets, '
-                      'stable sort + grouping and the two shipped summarizers; ranges_tile proved; reference grouping checked '
-                      'against the implementation on every generated case.',
-        'level_note': 'Trusted: model transcription of filter.rs / KmerExtsIter / Exts; std stable sort and itertools group_by '
-                      '(modelled as insertion sort + adjacent grouping); BoomHashMap2 (only read back). No axioms.',
-        'technique': 'list induction over a sort/group pipeline + finite sweep of the pass plans (Coq), differential correspondence',
-        'rule': 'read sets from a motif grammar; non-trivial = some (canonical) k-mer observed at least twice; f.filter additionally >= 2 passes',
-        'assumptions': [],
+        'level_text': 'Coq theorems (Properties/C05.v) about a line-by-line model of filter_kmers (coq/Algo/Filter.v: KmerExtsIter in '
+                      'positional form, min_rc_flip + Exts::rc, pass planning arithmetic, bucket ranges + assertion, bucket(), per-pass '
+                      'fill, stable sort, adjacent grouping, summarizer call, report_all): C05_filter_spec - for EVERY summarizer, every '
+                      'K >= 4, all reads over ACGT with arbitrary boundary extensions and labels, both strandedness values, both '
+                      'report_all values and every memory setting with memory_size*unit >= 1, the model does not panic and returns '
+                      'exactly the reference grouping (distinct keys ascending = sort+dedup; summarizer called once per key on exactly '
+                      'that key\'s observations in input order) and makes the planned number of passes; C05_pass_independent (result '
+                      'independent of memory_size, unit, size_of); C05_ranges_tile (all 257 reachable bucket widths: ranges ascending, '
+                      'contiguous, buckets 0..255 each once; by vm_compute); C05_bucket_monotone; C05_sort_stable / C05_group_sorted; '
+                      'C05_count_filter_spec (saturating u16 count = min(65535, #obs), exts = bitwise union), '
+                      'C05_count_filter_set_spec (distinct labels ascending); zero budget = division-by-zero panic. All closed, no axioms. '
+                      'The implementation is compared on every generated case with the reference grouping (s.filter, through iter() and '
+                      'through get()) and with the pass-by-pass model incl. the hooked pass count (f.filter).',
+        'level_note': 'Trusted/not proved: the hand transcription of filter.rs/lib.rs into the model (checked by the differential run '
+                      'only; the Exts masks/shifts come from the source pins, the constants 256, 10^9 and the bucket shifts 6/4/2 are '
+                      'written in the model); std sort_by_key is stable and itertools group_by groups adjacent equal keys (modelled as '
+                      'insertion sort + adjacent grouping); BoomHashMap2 (only read back with iter()/get(), compared as a key-sorted '
+                      'table); usize overflow of input_kmers*size_of and memory_size*unit is not modelled (unbounded N); the k-mer '
+                      'iterator is modelled positionally (its incremental extend_right form is C13\'s subject); packed k-mers are '
+                      'identified with their base lists (C10/C11). CountFilterSet\'s observation counter is an i32 in the code '
+                      '(fewer than 2^31 observations per k-mer assumed).',
+        'technique': 'list induction over a sort/group pipeline + vm_compute sweep of the finitely many pass plans (Coq), differential correspondence',
+        'rule': 'read sets (1-9 reads, some shorter than K or empty) from a motif grammar (random chunk, reuse/rc of an earlier chunk, '
+                'hairpin, even palindrome of length K, tandem repeat, homopolymer, 1-3 letter alphabet, (AT)^m/(CG)^m); K in '
+                '{4,5,6,8} mostly, {15,16,31,32}; labels u8/u32; boundary Exts empty (3/4) or random; DnaString and DnaBytes '
+                'containers; both strandedness and report_all values; CountFilter(n)/CountFilterSet(n), n in 0..4; memory_size and '
+                'hook unit chosen so that the pass count sweeps 1..128 and 256 (histogram in the # stat line of each case file), '
+                'zero budget (panic) included; thorough: 40000+30000-observation homopolymers for the saturating count and '
+                'thresholds 65535/65536/70000. non-trivial = some (canonical) k-mer observed at least twice; for f.filter additionally >= 2 passes',
+        'theorems': ['C05_ranges_tile', 'C05_plan_sz_range', 'C05_bucket_monotone', 'C05_sort_stable', 'C05_group_sorted',
+                     'C05_filter_spec', 'C05_pass_independent', 'C05_zero_budget_panics', 'C05_ref_keys', 'C05_count_filter_spec',
+                     'C05_union_exts_spec', 'C05_count_filter_set_spec'],
+        'assumptions': ['filter.rs / KmerExtsIter / Exts are as transcribed in coq/Algo/Filter.v and coq/Packed/ExtsMini.v (checked by this run)',
+                        'slice::sort_by_key is stable; itertools group_by yields maximal runs of adjacent equal keys',
+                        'no usize overflow in input_kmers*size_of and memory_size*unit',
+                        'K >= 4 and all bases < 4 (bucket() reads positions 0..3)'],
+    },
+    'C06': {
+        'level_text': 'FILTER HALF ONLY (k-mer table; Properties/C06Filter.v, collected by Properties/C06.v). Coq theorems on the '
+                      'reference grouping, which C05_filter_spec proves equal to the filter_kmers model: C06_keys_canonical / '
+                      'C06_keys_complete (unstranded: every key is the lexicographic minimum of a read k-mer and its reverse '
+                      'complement, and every read k-mer is represented); C06_stranded_exact (stranded: keys are exactly the forward '
+                      'k-mers, extension sets never flipped); C06_filter_rc_invariant (unstranded, ANY subset of reads replaced by their '
+                      'reverse complements with boundary extensions flipped along, any summarizer whose acceptance/summary depend on '
+                      'the multiset of labels and whose extension set is the union: same keys, same acceptance, same summaries, same '
+                      'extension sets - for a palindromic key only the symmetrised set e|rc(e) is invariant, palindrome_exts_rel); '
+                      'C06_filter_rc_count_filter / _set: the same as the boolean checker table_rel for CountFilter and '
+                      'CountFilterSet; C06_count_filter_perm / _set_perm. All closed, no axioms.',
+        'level_note': 'NOT covered here: the graph half of C06 (partition, payloads and adjacencies of the compressed graph; sharded and '
+                      're-compressed pipelines) - to be merged from the graph work. The palindrome caveat is necessary: the non-vacuity '
+                      'example exhibits two runs whose stored extension sets of a palindromic key differ. Trusted as for C05.',
+        'technique': 'permutation/relational reasoning over the observation list + exhaustive 256(x256) sweeps of the Exts operations (Coq), differential correspondence',
+        'rule': 'read sets as for C05; unstranded; for every read set with n <= 4 (thorough: 6) reads ALL 2^n flip subsets, sampled '
+                'beyond; the implementation\'s table on the flipped reads is checked by the Coq checker table_rel against the reference '
+                'grouping of the UNFLIPPED reads (chk.filter_rc) and against its own reference grouping (s.filter); one stranded run '
+                'per read set; non-trivial = some canonical k-mer observed at least twice and at least one read flipped',
+        'theorems': ['C06_keys_canonical', 'C06_keys_complete', 'C06_stranded_exact', 'C06_filter_rc_invariant',
+                     'C06_filter_rc_count_filter', 'C06_filter_rc_count_filter_set', 'C06_count_filter_perm', 'C06_count_filter_set_perm'],
+        'assumptions': ['as C05', 'a flipped read carries the reverse complement (Exts::rc) of its boundary extensions',
+                        'graph half of the property not covered by this entry'],
     },
 }
